@@ -427,6 +427,48 @@ def reaching_values(func_node, cfg: CFG, use: Node, expr):
     return out
 
 
+MUTATORS = ("append", "extend", "insert", "update", "add", "setdefault", "pop", "remove", "clear", "sort", "reverse", "popitem", "discard", "put", "put_nowait", "appendleft")
+
+
+def shared_class_state(repo, classes):
+    """[(ClassInfo, name, expr, how)]: a mutable object created in a class body (list / dict / set display, or a call of
+    list / dict / set / deque / Queue / defaultdict ...) that no constructor in the class's resolution order replaces by
+    `self.name = ...`, and that a method of one of the given classes changes in place through `self.name` - the one object
+    then belongs to every instance of the class."""
+    from .model import call_name, dotted, norm, walk_no_nested
+
+    out = []
+    seen = set()
+    for cls in classes:
+        for owner in cls.mro:
+            for name, expr in getattr(owner, "consts", {}).items():
+                if (owner.name, name) in seen:
+                    continue
+                mutable = isinstance(expr, (ast.List, ast.Dict, ast.Set, ast.ListComp, ast.DictComp, ast.SetComp)) or (
+                    isinstance(expr, ast.Call) and (call_name(expr) or "").split(".")[-1] in ("list", "dict", "set", "deque", "Queue", "defaultdict", "OrderedDict", "bytearray", "ByteQueue"))
+                if not mutable:
+                    continue
+                seen.add((owner.name, name))
+                family = [k for k in classes if owner in k.mro] or [owner]
+                rebound = all(any(isinstance(x, (ast.Assign, ast.AnnAssign)) and getattr(x, "value", None) is not None and any((dotted(t) or "") == f"self.{name}" for t in (x.targets if isinstance(x, ast.Assign) else [x.target]))
+                                  for k in fam.mro if "__init__" in k.methods for x in walk_no_nested(k.methods["__init__"].node)) for fam in family)
+                if rebound:
+                    continue
+                how = None
+                for k in {id(c): c for fam in family for c in fam.mro}.values():
+                    for m in getattr(k, "methods", {}).values():
+                        for x in ast.walk(m.node):
+                            if isinstance(x, ast.Call) and isinstance(x.func, ast.Attribute) and x.func.attr in MUTATORS and (dotted(x.func.value) or "") == f"self.{name}":
+                                how = how or f"{m.qualname}: `{norm(x)[:60]}`"
+                            elif isinstance(x, ast.Subscript) and isinstance(x.ctx, (ast.Store, ast.Del)) and (dotted(x.value) or "") == f"self.{name}":
+                                how = how or f"{m.qualname}: an element of self.{name} is assigned or deleted"
+                            elif isinstance(x, ast.AugAssign) and (dotted(x.target) or "") == f"self.{name}":
+                                how = how or f"{m.qualname}: `{norm(x)[:60]}`"
+                if how:
+                    out.append((owner, name, expr, how))
+    return out
+
+
 def shared_default_state(repo, cls):
     """[(FuncInfo, parameter, how)]: methods of the class whose mutable default argument (a list / dict / set display or
     list() / dict() / set() call) is changed in place or handed out, and that some call in the package invokes without
